@@ -75,6 +75,55 @@ fn observe(sources: &[String], backend: &str) -> String {
     digest_of(&o)
 }
 
+/// Split the body of a module into pieces that each lex as a list of complete assignments (validated on the real
+/// lexer: the shortest prefix that lexes alone and whose remainder lexes alone is cut off, repeatedly).  Assignments
+/// are self-delimiting (X.680 13), so any order of such pieces denotes the same set of definitions.
+pub fn split_assignments(body: &str) -> Option<Vec<String>> {
+    let lexes = |t: &str| -> bool {
+        let src = format!("M DEFINITIONS AUTOMATIC TAGS ::= BEGIN\n{t}\nEND\n");
+        match compile_rasn(&[src], &Cfg::default()) {
+            Outcome::Err(e) => e.variant != "Lexer",
+            Outcome::Panic { .. } => false,
+            _ => true,
+        }
+    };
+    let toks = crate::tokens::tokenize(body)?;
+    let words: Vec<String> = toks.iter().map(|t| t.text.clone()).collect();
+    if !lexes(&words.join(" ")) {
+        return None;
+    }
+    let mut pieces = vec![];
+    let mut start = 0;
+    while start < words.len() {
+        let mut cut = None;
+        let mut depth = 0i32;
+        for end in start..words.len() {
+            match words[end].as_str() {
+                "{" | "(" | "[" | "[[" => depth += 1,
+                "}" | ")" | "]" | "]]" => depth -= 1,
+                _ => {}
+            }
+            if depth != 0 || end + 1 - start < 3 || !words[start..=end].iter().any(|w| w == "::=") {
+                continue;
+            }
+            // the next piece has to begin with a word that can begin an assignment
+            if end + 1 < words.len() && !words[end + 1].chars().next().map_or(false, |c| c.is_ascii_alphabetic()) {
+                continue;
+            }
+            let head = words[start..=end].join(" ");
+            let rest = words[end + 1..].join(" ");
+            if lexes(&head) && (rest.is_empty() || lexes(&rest)) {
+                cut = Some(end);
+                break;
+            }
+        }
+        let end = cut?;
+        pieces.push(words[start..=end].join(" "));
+        start = end + 1;
+    }
+    Some(pieces)
+}
+
 fn perms_of(n: usize) -> Vec<Vec<usize>> {
     if n <= 5 {
         let mut perms: Vec<Vec<usize>> = vec![vec![]];
@@ -116,7 +165,7 @@ impl Prop for C11 {
         "C11"
     }
     fn rule(&self) -> String {
-        "observation = generated bytes + sorted warnings (rustfmt unreachable). (1) permutations: a 14-assignment module with forward/backward references (reversal, every adjacent transposition, every rotation), every closed sub-list of <=5 assignments in all orders (<=120), the same for modules inside one source and for sources of one compiler over 2..3-module import sets; (2) histories: BFS over sequences of compile operations from an 8-input alphabet (incl. two versions of one specification with identical names and instantiations but different bodies) that differs in every piece of per-run state (tagging default, extensibility, warnings, charset tables, backend, multi-module, failing input), depth <=3 (thorough 4), each step compared with the same operation in a fresh process; (3) schedules: shuttle::check_dfs over 2 threads × 1 compilation each (thorough: 2×2 over the boundaries {lex_source, validated, compiled} and 3×1 over {validated, generate_module}) with scheduling points at the verif_hooks stage boundaries, every compilation compared with its sequential reference; (4) the 6 inputs in 8 fresh processes (a sample of hash seeds — labelled sampling, not what the claim rests on). Non-trivial: at least two executions were compared.".into()
+        "observation = generated bytes + sorted warnings (rustfmt unreachable). (1) permutations: a 14-assignment module with forward/backward references (reversal, every adjacent transposition, every rotation), every closed sub-list of <=5 assignments in all orders (<=120), every feature module of the grammar (55: values of all-capital types, parameterization, classes and objects, selection types, COMPONENTS OF, OID references ...) split into its assignments by the real lexer and permuted (all orders for <=5 pieces, else reversal / adjacent transpositions / rotations; multi-module features: modules in every order, in one source and as separate sources), the same for modules inside one source and for sources of one compiler over 2..3-module import sets; (2) histories: BFS over sequences of compile operations from an 8-input alphabet (incl. two versions of one specification with identical names and instantiations but different bodies) that differs in every piece of per-run state (tagging default, extensibility, warnings, charset tables, backend, multi-module, failing input), depth <=3 (thorough 4), each step compared with the same operation in a fresh process; (3) schedules: shuttle::check_dfs over 2 threads × 1 compilation each (thorough: 2×2 over the boundaries {lex_source, validated, compiled} and 3×1 over {validated, generate_module}) with scheduling points at the verif_hooks stage boundaries, every compilation compared with its sequential reference; (4) the 6 inputs in 8 fresh processes (a sample of hash seeds — labelled sampling, not what the claim rests on). Non-trivial: at least two executions were compared.".into()
     }
     fn nondeterminism_is_violation(&self) -> bool {
         true
@@ -172,6 +221,31 @@ impl Prop for C11 {
             for p in perms_of(sa.len()) {
                 let pa: Vec<String> = p.iter().map(|i| sa[*i].clone()).collect();
                 out.push(mk("perm", format!("assignments:n={}:all", sa.len()), vec![base.clone()], vec![module("M", "AUTOMATIC TAGS", "", &pa)]));
+            }
+        }
+        // every feature module (each production of the grammar occurs in one): its assignments in every order (<= 5
+        // pieces) / in the complete neighbourhood of the written order; multi-module features: the modules in every order
+        for (name, text) in crate::tokens::feature_modules() {
+            let head = "M DEFINITIONS AUTOMATIC TAGS ::= BEGIN ";
+            if text.starts_with(head) && text.ends_with(" END") && text.matches(" DEFINITIONS ").count() == 1 {
+                let body = &text[head.len()..text.len() - 4];
+                if let Some(pieces) = split_assignments(body) {
+                    if pieces.len() < 2 {
+                        continue;
+                    }
+                    let base = module("M", "AUTOMATIC TAGS", "", &pieces);
+                    for p in perms_of(pieces.len()) {
+                        let pa: Vec<String> = p.iter().map(|i| pieces[*i].clone()).collect();
+                        out.push(mk("perm", format!("feature-assignments:{name}:n={}", pieces.len()), vec![base.clone()], vec![module("M", "AUTOMATIC TAGS", "", &pa)]));
+                    }
+                }
+            } else if text.matches(" DEFINITIONS ").count() > 1 {
+                let mods: Vec<String> = text.split_inclusive(" END").map(|m| m.trim().to_string()).filter(|m| !m.is_empty()).collect();
+                for p in perms_of(mods.len()) {
+                    let pm: Vec<String> = p.iter().map(|i| mods[*i].clone()).collect();
+                    out.push(mk("perm", format!("feature-modules:{name}:n={}", mods.len()), vec![mods.join("\n")], vec![pm.join("\n")]));
+                    out.push(mk("perm", format!("feature-sources:{name}:n={}", mods.len()), mods.clone(), pm.clone()));
+                }
             }
         }
         // ---- modules inside a source / sources of a compiler
